@@ -677,8 +677,12 @@ def rule_membership(model):
             for x in own_nodes(callee.node):
                 if isinstance(x, ast.Assign) and isinstance(
                         x.targets[0], ast.Name) and any(
-                        isinstance(y, ast.Subscript) and
-                        norm(y.value) == pdict and norm(y.slice) == pkey
+                        (isinstance(y, ast.Subscript) and
+                         norm(y.value) == pdict and norm(y.slice) == pkey)
+                        or (isinstance(y, ast.Call) and isinstance(
+                            y.func, ast.Attribute) and y.func.attr == 'get'
+                            and norm(y.func.value) == pdict and y.args and
+                            norm(y.args[0]) == pkey)
                         for y in ast.walk(x.value)):
                     vals.add(x.targets[0].id)
             for x in own_nodes(callee.node):
